@@ -163,7 +163,8 @@ static void getters_with (PIniFile *ini, const char *sec, const char *key, const
 	double d = p_ini_file_parameter_double (ini, sec, key, ddef);
 	uint64_t bits;
 	memcpy (&bits, &d, sizeof bits);
-	printf (" d=%016llx", (unsigned long long) bits);
+	/* a NaN is printed as `nan` (the model's Float does not keep NaN payloads) */
+	if (d != d) fputs (" d=nan", stdout); else printf (" d=%016llx", (unsigned long long) bits);
 	printf (" e=%d", p_ini_file_is_key_exists (ini, sec, key) ? 1 : 0);
 	fputs (" n=", stdout); put_counts_free (p_ini_file_keys (ini, sec));
 	p_free (s);
